@@ -124,5 +124,21 @@ func Corpus(res *vh.Result, prop string) []*Hist {
 		g.revoteScenario(fl)
 		out = append(out, h)
 	}
+	// C04 (seeded change C04-D): an embedded voteproof made under a lower threshold on the deferred (not validated) path
+	{
+		r := vh.NewRand(11)
+		w := NewWorld(r, 3, 670, true)
+		h := NewHist(w, res, prop)
+		g := &genState{h: h, w: w, r: r, vpcache: map[string]int{}, expsets: [][]int{nil}}
+		g.lowThresholdScenario(5)
+		out = append(out, h)
+	}
+	// C06 clause (seeded change C06-D): last point INIT(H,1) draw, suffrage-confirm ballots of (H,0) carry the old INIT
+	// majority voteproof of (H,0): the last point must not move back
+	{
+		h, g := corpusHist(res, prop, 3, 670)
+		g.scBackScenario()
+		out = append(out, h)
+	}
 	return out
 }
